@@ -74,6 +74,11 @@ def verify_one(name, thorough_if_missed, also):
             rec["ran"].append("patch does not apply: " + ra.stderr[-300:])
             return rec
         rt = sh([PY, "-B", "-m", "pytest", "-q", "-p", "no:cacheprovider", "--timeout=900"], cwd=wt)
+        if rt.returncode != 0:
+            # the repository suite has a timing-dependent test (countdown) that fails now and then on a loaded machine: once more
+            first_tail = (rt.stdout.strip().splitlines() or [""])[-1]
+            rt = sh([PY, "-B", "-m", "pytest", "-q", "-p", "no:cacheprovider", "--timeout=900"], cwd=wt)
+            rec["ran"].append(f"repository test suite with the patch, first attempt: {first_tail}")
         tail = (rt.stdout.strip().splitlines() or [""])[-1]
         rec["ran"].append(f"repository test suite with the patch: exit {rt.returncode} ({tail})")
         r1 = sh([PY, "-B", demo], cwd=wt)
